@@ -294,6 +294,10 @@ def vsh_plan(status, outs):
     return ";".join("%s=%s" % (k, ",".join(acts[k])) for k in keys)
 
 
+ACCEPT_TEXTS = ["y", "yes", "Y", "YES", " y", "Yes  ", "yEs", "\ty\t"]
+DECLINE_TEXTS = ["n", "no", "", "ye", "yess", "yes please", "yup", "y/n", "maybe", "yesterday", "ja", "1", "y y", "N", "yes.", "true"]
+
+
 def run_impl(workdir, justfile_text, argv, status, outs, answers, timeout=20, extra_env=None):
     """Run just on the program; returns dict(events=[...], exit=rc, stderr=str, stdout=str)."""
     os.makedirs(workdir, exist_ok=True)
@@ -310,7 +314,9 @@ def run_impl(workdir, justfile_text, argv, status, outs, answers, timeout=20, ex
                 "VSH_PLAN": vsh_plan(status, outs)})
     if extra_env:
         env.update(extra_env)
-    stdin = "".join("y\n" if a else "n\n" for a in answers).encode()
+    # the k-th answer is accepted / declined with a text that depends on k only (so that a replay types the same thing):
+    # accepted are `y` and `yes` in any letter case with surrounding blanks, everything else declines
+    stdin = "".join((ACCEPT_TEXTS[k % len(ACCEPT_TEXTS)] if a else DECLINE_TEXTS[k % len(DECLINE_TEXTS)]) + "\n" for k, a in enumerate(answers)).encode()
     import subprocess
     with open(errp, "ab") as ef:
         try:
